@@ -793,12 +793,12 @@ func coerceToSignedByte(arg Object, mods ...Object) (result Object) {
 	case *SignedByte:
 		result = ta
 	case *BitVector:
-		ba := make([]byte, len(ta.Bytes))
+		ba := make([]byte, max(1, (int(ta.Len)+7)/8))
 		last := int(ta.Len) - 1
 		for i := 0; i <= last; i++ {
 			if ta.At(uint(i)) {
 				j := last - i
-				ba[j/8] |= 1 << (j % 8)
+				ba[len(ba)-1-j/8] |= 1 << (j % 8)
 			}
 		}
 		result = &SignedByte{Bytes: ba}
@@ -835,12 +835,12 @@ func coerceToUnsignedByte(arg Object, mods ...Object) (result Object) {
 	case *UnsignedByte:
 		result = ta
 	case *BitVector:
-		ba := make([]byte, len(ta.Bytes))
+		ba := make([]byte, max(1, (int(ta.Len)+7)/8))
 		last := int(ta.Len) - 1
 		for i := 0; i <= last; i++ {
 			if ta.At(uint(i)) {
 				j := last - i
-				ba[j/8] |= 1 << (j % 8)
+				ba[len(ba)-1-j/8] |= 1 << (j % 8)
 			}
 		}
 		result = &UnsignedByte{Bytes: ba}
